@@ -135,3 +135,150 @@ Proof.
   - intros (idx & Hidx & Hx). rewrite <- Hx. replace idx with (s + (idx - s))%nat by lia.
     rewrite <- (slice_nth bin s e) by lia. apply nth_In. rewrite slice_length by exact He. lia.
 Qed.
+
+(* ---------------------------------------------------------------- the range-end comparisons are monotone in x *)
+Lemma ge_minx_up S px r : up_closed (ge_minx (S * S) px r).
+Proof.
+  intros x y Hxy H. unfold ge_minx, sqle in *. rewrite !orb_true_iff, !Z.leb_le in *.
+  destruct H as [H|[H|H]]; [left; lia|right; left; lia|].
+  destruct (Z_le_gt_dec (r_lo r - y) 0) as [Hy|Hy]; [right; left; lia|]. right; right.
+  assert (H1 : (r_lo r - y) * (r_lo r - y) <= (r_lo r - x) * (r_lo r - x)) by nia.
+  pose proof (Z.square_nonneg S). nia.
+Qed.
+
+Lemma le_maxx_down S px r : down_closed (le_maxx (S * S) px r).
+Proof.
+  intros x y Hxy H. unfold le_maxx, sqle in *. rewrite !orb_true_iff, !Z.leb_le in *.
+  destruct H as [H|[H|H]]; [left; lia|right; left; lia|].
+  destruct (Z_le_gt_dec (x - r_hi r) 0) as [Hy|Hy]; [right; left; lia|]. right; right.
+  assert (H1 : (x - r_hi r) * (x - r_hi r) <= (y - r_hi r) * (y - r_hi r)) by nia.
+  pose proof (Z.square_nonneg S). nia.
+Qed.
+
+Lemma lt_minx_down g px r : down_closed (lt_minx g px r).
+Proof.
+  intros x y Hxy H. unfold lt_minx in *. destruct (ge_minx _ px r x) eqn:E; [|reflexivity].
+  rewrite (ge_minx_up (gS g) px r x y Hxy E) in H. discriminate.
+Qed.
+
+Lemma gt_maxx_up g px r : up_closed (gt_maxx g px r).
+Proof.
+  intros x y Hxy H. unfold gt_maxx in *. destruct (le_maxx _ px r y) eqn:E; [|reflexivity].
+  rewrite (le_maxx_down (gS g) px r x y Hxy E) in H. discriminate.
+Qed.
+
+Lemma lt_minx_sh_down g px r : down_closed (lt_minx_sh g px r).
+Proof. intros x y Hxy. unfold lt_minx_sh. apply lt_minx_down. lia. Qed.
+
+Lemma gt_maxx_sh_up g px r : up_closed (gt_maxx_sh g px r).
+Proof. intros x y Hxy. unfold gt_maxx_sh. apply gt_maxx_up. lia. Qed.
+
+(* x < minx implies x <= maxx (minx <= px <= maxx) *)
+Lemma lt_minx_not_gt_maxx g px r v : lt_minx g px r v = true -> gt_maxx g px r v = false.
+Proof.
+  unfold lt_minx, gt_maxx, ge_minx, le_maxx. intros H.
+  destruct (px <=? v) eqn:E; cbn [orb negb] in H; [discriminate|].
+  assert (E' : (v <=? px) = true) by lia. rewrite E'. reflexivity.
+Qed.
+
+(* ---------------------------------------------------------------- the ranges in closed form *)
+Lemma ranges_explicit g px r bin : StronglySorted xle bin ->
+  let n := length bin in
+  exists k1 k2 k3 k4 : nat,
+    (k1 <= k2 <= n)%nat /\ (k3 <= n)%nat /\ (k4 <= n)%nat /\
+    (forall i, (i < n)%nat -> lt_minx g px r (ent_x (nth i bin ent0)) = (i <? k1)%nat) /\
+    (forall i, (i < n)%nat -> gt_maxx g px r (ent_x (nth i bin ent0)) = (k2 <=? i)%nat) /\
+    (forall i, (i < n)%nat -> gt_maxx_sh g px r (ent_x (nth i bin ent0)) = (k3 <=? i)%nat) /\
+    (forall i, (i < n)%nat -> lt_minx_sh g px r (ent_x (nth i bin ent0)) = (i <? k4)%nat) /\
+    ranges_ll g px r bin =
+      if r_needp r then
+        if Nat.ltb 0 k1 && Nat.ltb k2 n then [(k1, k2)]
+        else if Nat.ltb 0 k1 then [(k1, k2); (0%nat, Nat.min k1 k3)]
+        else [(k1, k2); (Nat.max k2 (Nat.min n k4), n)]
+      else [(k1, k2)].
+Proof.
+  intros Hs n.
+  destruct (prefix_exists _ bin Hs (lt_minx_down g px r)) as (k1 & Hk1 & H1).
+  destruct (suffix_exists _ bin Hs (gt_maxx_up g px r)) as (k2 & Hk2 & H2).
+  destruct (suffix_exists _ bin Hs (gt_maxx_sh_up g px r)) as (k3 & Hk3 & H3).
+  destruct (prefix_exists _ bin Hs (lt_minx_sh_down g px r)) as (k4 & Hk4 & H4).
+  fold n in Hk1, Hk2, Hk3, Hk4, H1, H2, H3, H4.
+  assert (H12 : (k1 <= k2)%nat).
+  { destruct k1 as [|k]; [lia|]. assert (Hk : (k < n)%nat) by lia.
+    pose proof (H1 k Hk) as Ha. pose proof (H2 k Hk) as Hb.
+    replace (k <? S k)%nat with true in Ha by lia. rewrite (lt_minx_not_gt_maxx _ _ _ _ Ha) in Hb. lia. }
+  exists k1, k2, k3, k4. repeat (split; [first [assumption|lia]|]).
+  unfold ranges_ll. cbv zeta. fold n.
+  rewrite (find_lower_spec (lt_minx g px r) bin k1 H1 n 0 n) by lia.
+  replace (Nat.max 0 (Nat.min n k1)) with k1 by lia.
+  rewrite (find_upper_spec (gt_maxx g px r) bin k2 H2 n k1 n) by lia.
+  replace (Nat.max k1 (Nat.min n k2)) with k2 by lia.
+  rewrite (find_upper_spec (gt_maxx_sh g px r) bin k3 H3 n 0 k1) by lia.
+  rewrite (find_lower_spec (lt_minx_sh g px r) bin k4 H4 n k2 n) by lia.
+  replace (Nat.min (Nat.max 0 (Nat.min k1 k3)) k1) with (Nat.min k1 k3) by lia.
+  replace (Nat.max (Nat.max k2 (Nat.min n k4)) k2) with (Nat.max k2 (Nat.min n k4)) by lia.
+  reflexivity.
+Qed.
+
+Lemma existsb_nth_iff (f : nat * vec -> bool) bin :
+  existsb f bin = true <-> exists i, (i < length bin)%nat /\ f (nth i bin ent0) = true.
+Proof.
+  rewrite existsb_exists. split.
+  - intros (x & Hx & Hf). destruct (In_nth _ _ ent0 Hx) as (i & Hi & E). exists i. now rewrite E.
+  - intros (i & Hi & Hf). exists (nth i bin ent0). split; [now apply nth_In|exact Hf].
+Qed.
+
+(* item idx of the sorted bin lies in one of the index ranges  <->  its x satisfies the range predicate of the model *)
+Lemma ranges_cover g px r bin idx : StronglySorted xle bin -> (idx < length bin)%nat ->
+  ((exists se, In se (ranges_ll g px r bin) /\ (fst se <= idx < snd se)%nat) <->
+   in_ranges g px r (has_below g px r bin) (has_above g px r bin) (ent_x (nth idx bin ent0)) = true).
+Proof.
+  intros Hs Hidx. destruct (ranges_explicit g px r bin Hs) as (k1 & k2 & k3 & k4 & H12 & Hk3 & Hk4 & H1 & H2 & H3 & H4 & E).
+  cbv zeta in *. set (n := length bin) in *.
+  assert (Hbelow : has_below g px r bin = Nat.ltb 0 k1).
+  { apply eq_true_iff_eq. unfold has_below. rewrite existsb_nth_iff. fold n. split.
+    - intros (i & Hi & Hf). change (lt_minx g px r (ent_x (nth i bin ent0)) = true) in Hf. rewrite H1 in Hf by exact Hi. lia.
+    - intros H0. exists 0%nat. split; [lia|]. change (lt_minx g px r (ent_x (nth 0 bin ent0)) = true). rewrite H1 by lia. lia. }
+  assert (Habove : has_above g px r bin = Nat.ltb k2 n).
+  { apply eq_true_iff_eq. unfold has_above. rewrite existsb_nth_iff. fold n. split.
+    - intros (i & Hi & Hf). change (gt_maxx g px r (ent_x (nth i bin ent0)) = true) in Hf. rewrite H2 in Hf by exact Hi. lia.
+    - intros H0. exists k2. split; [lia|]. change (gt_maxx g px r (ent_x (nth k2 bin ent0)) = true). rewrite H2 by lia. lia. }
+  rewrite Hbelow, Habove, E. clear E Hbelow Habove.
+  pose proof (H1 idx Hidx) as A1. pose proof (H2 idx Hidx) as A2. pose proof (H3 idx Hidx) as A3. pose proof (H4 idx Hidx) as A4.
+  unfold in_ranges. cbv zeta.
+  set (x := ent_x (nth idx bin ent0)) in *.
+  unfold lt_minx_sh, gt_maxx_sh in A3, A4. unfold lt_minx, gt_maxx in A1, A2, A3, A4.
+  destruct (ge_minx (gS g * gS g) px r x) eqn:G1, (le_maxx (gS g * gS g) px r x) eqn:L1,
+           (le_maxx (gS g * gS g) px r (x + b_ax (g_box g))) eqn:L2, (ge_minx (gS g * gS g) px r (x - b_ax (g_box g))) eqn:G2;
+    cbn [negb andb] in *;
+    destruct (r_needp r); destruct (Nat.ltb 0 k1) eqn:B1; destruct (Nat.ltb k2 n) eqn:B2; cbn [andb negb];
+    (split; [intros (se & Hin & Hr); cbn [In] in Hin;
+             repeat (destruct Hin as [<-|Hin]; [cbn [fst snd] in Hr; try reflexivity; lia|]); destruct Hin
+            |intros Ht; try discriminate;
+             first [ exists (k1, k2); split; [cbn [In]; tauto|cbn [fst snd]; lia]
+                   | exists (0%nat, Nat.min k1 k3); split; [cbn [In]; tauto|cbn [fst snd]; lia]
+                   | exists (Nat.max k2 (Nat.min n k4), n); split; [cbn [In]; tauto|cbn [fst snd]; lia] ]]).
+Qed.
+
+Lemma ranges_bounded g px r bin se : StronglySorted xle bin -> In se (ranges_ll g px r bin) -> (snd se <= length bin)%nat.
+Proof.
+  intros Hs Hin. destruct (ranges_explicit g px r bin Hs) as (k1 & k2 & k3 & k4 & H12 & Hk3 & Hk4 & _ & _ & _ & _ & E).
+  cbv zeta in *. rewrite E in Hin.
+  destruct (r_needp r); [destruct (Nat.ltb 0 k1 && Nat.ltb k2 (length bin)); [|destruct (Nat.ltb 0 k1)]|];
+    cbn [In] in Hin; repeat (destruct Hin as [<-|Hin]; [cbn [snd]; lia|]); destruct Hin.
+Qed.
+
+(* the ranges never overlap: no item is visited twice *)
+Lemma ranges_disjoint g px r bin : StronglySorted xle bin ->
+  (exists a, ranges_ll g px r bin = [a]) \/
+  (exists a b, ranges_ll g px r bin = [a; b] /\ ((snd b <= fst a)%nat \/ (snd a <= fst b)%nat)).
+Proof.
+  intros Hs. destruct (ranges_explicit g px r bin Hs) as (k1 & k2 & k3 & k4 & H12 & Hk3 & Hk4 & _ & _ & _ & _ & E).
+  cbv zeta in *. rewrite E.
+  destruct (r_needp r); [destruct (Nat.ltb 0 k1 && Nat.ltb k2 (length bin)); [|destruct (Nat.ltb 0 k1)]|].
+  - left. eauto.
+  - right. do 2 eexists. split; [reflexivity|]. left. cbn [fst snd]. lia.
+  - right. do 2 eexists. split; [reflexivity|]. right. cbn [fst snd]. lia.
+  - left. eauto.
+Qed.
+
